@@ -43,6 +43,11 @@ CHECKS = {
          'Every opcode slot x special operand bytes x addresses (incl. the 64K boundary) x base indicators x case x default base x Opcodes sets is disassembled and reassembled; TLC requires identical bytes, the specification\'s template, and that every numeric literal - parsed by the AsmLit grammar - denotes the operand value decoded by the specification. DEFB/DEFM/DEFW/DEFS ranges with sublength lists and generated operand spellings (hex/bin/char/expressions/whitespace/case, edge displacements and jump offsets) are round-tripped.',
          'Operand bytes and spellings are sampled (slot space complete); literals are located in the text by a tokenizer in the harness (trusted); base m excluded for RST, IN A,(n), OUT (n),A and DEFS sizes where a signed operand is not meaningful.',
          'DESIGN.md §4 C02'),
+ 'C14': ('model_checking',
+         'TLA+ CtlGen specification of the directive-map algorithm (FindTerminal transcribed) model-checked for the tiling invariant; TLC judges recorded calls of the real _find_terminal_instruction and the control files sna2ctl writes (order, terminator, code map inside code blocks, sna2skool/skool2bin consequences)',
+         'Exhaustive model check over all abstract images of 5 addresses (instruction lengths 1-3, END flags, code sets); the real _find_terminal_instruction is bound to the specification operator on random abstract images; real sna2ctl.main runs on image classes (incl. structured multi-routine programs with untaken calls and indirect jumps, ranges ending mid-instruction) with code maps in five formats built from real simulator traces, then sna2skool and skool2bin on its output.',
+         'Termination is bounded liveness (20 s CPU cap per run). Arbitrary (non-trace) address sets are judged for termination/tiling/map-in-code only. An overlap warning caused by a code-map instruction that straddles the requested END is inherent in the input and not counted.',
+         'DESIGN.md §4 C14'),
 }
 
 PENDING = {}
